@@ -290,7 +290,13 @@ func (c *FailoverController) ForceFailover(reason string) error {
 	c.logger.Warn("Forcing failover",
 		zap.String("reason", reason),
 	)
-	return c.initiateFailover(reason)
+	if err := c.initiateFailover(reason); err != nil {
+		return err
+	}
+	// initiateFailover leaves the controller in progress; run the promotion now so that
+	// the state always has a transition pending (callback failure returns it to normal)
+	c.executeFailover(reason)
+	return nil
 }
 
 // ForceFailback forces an immediate failback (for manual intervention).
@@ -409,8 +415,7 @@ func (c *FailoverController) initiateFailover(reason string) error {
 		return fmt.Errorf("already active, cannot failover")
 	}
 
-	c.state = FailoverStateInProgress
-	atomic.AddUint64(&c.failoversInitiated, 1)
+	c.state = FailoverStateInProgress // failoversInitiated is counted by executeFailover
 
 	c.notifyHandlers(FailoverEvent{
 		Type:         FailoverEventInitiated,
